@@ -273,8 +273,8 @@ def succ_rule(chk, tab, prog, rule="SUCC", only=None):
             mn = tab.mnemonic(r)
             if not hits:
                 continue      # reported by T2
-            if sig == ("type", "CONTROL_FLOW") and not any(F["enc"] in ("D", "S") for F in hits):
-                continue      # ret/xend: no displacement form (C10/FMT conflation)
+            if sig == ("type", "CONTROL_FLOW") and not any(F["enc"] in ("D", "S") or "i" in "".join(F.get("fmts") or []) for F in hits):
+                continue      # ret/xend: no operand at all, the short flag cannot be set (C10/FMT conflation)
             nxt = tab.rows[r.idx + 1] if r.idx + 1 < len(tab.rows) else None
             key = "%s/%s/row=%s" % (rule, sig[1], TR.rowkey(tab, r))
             nob += 1
